@@ -1,33 +1,28 @@
 ------------------------------- MODULE MCSdlThorough -------------------------------
 EXTENDS MCSdl
 
-\* every CPU amount with at most three decimals from 0.010 to 10.000, in both decimal spellings
-CpusThorough == UNION { { CpuDec(m) : m \in 10..10000 }, { CpuDec3(m) : m \in 10..10000 }, { CpuM(m) : m \in 9..10001 } }
-
 \* ---- thorough ----
 ThoroughSlices == <<
-  Sl(<<"web">>, <<"large">>, <<"east", "west">>, [s \in {"web"} |-> AllBodies], [s \in {"web"} |-> AllKinds],
-     {1, 2, 50}, [c \in {"large"} |-> "QLargeOdd"]),
-  Sl(<<"api", "web">>, <<"large", "small">>, <<"east">>,
+  Sl("A", <<"web">>, <<"large">>, <<"east", "west">>, [s \in {"web"} |-> AllBodies], [s \in {"web"} |-> AllKinds],
+     {1, 2, 49, 50}, [c \in {"large"} |-> <<List(<<QLarge, QOdd>>)>>]),
+  Sl("B", <<"api", "web">>, <<"large", "small">>, <<"east">>,
      [s \in {"api", "web"} |-> AllBodies],
      [s \in {"api", "web"} |-> AllKinds \ {"bareonly", "barehosts", "udp80", "as8080", "svcglobal"}],
-     {2}, [c \in {"large", "small"} |-> IF c = "large" THEN "QLarge" ELSE "QSmall"]),
-  Sl(<<"api", "web">>, <<"large", "small">>, <<"east", "west">>,
+     {2}, [c \in {"large", "small"} |-> IF c = "large" THEN <<List(<<QLarge>>)>> ELSE <<List(<<QSmall>>)>>]),
+  Sl("C", <<"api", "web">>, <<"large", "small">>, <<"east", "west">>,
      [s \in {"api", "web"} |-> IF s = "web" THEN AllBodies ELSE NoneAll],
      [s \in {"api", "web"} |-> IF s = "web" THEN {"none", "http", "two", "fan", "mix"} ELSE {"none", "httphosts", "local", "udp", "rev"}],
-     {1, 25}, [c \in {"large", "small"} |-> IF c = "large" THEN "QLarge" ELSE "QOdd"]),
+     {1, 25}, [c \in {"large", "small"} |-> IF c = "large" THEN <<List(<<QLarge>>)>> ELSE <<List(<<QOdd>>)>>]),
   \* three services, three placements
-  Sl(<<"api", "db", "web">>, <<"large", "small">>, <<"east", "north", "west">>,
+  Sl("E", <<"api", "db", "web">>, <<"large", "small">>, <<"east", "north", "west">>,
      [s \in {"api", "db", "web"} |-> IF s = "db" THEN NoneAll ELSE {{"command", "args", "env"}}],
      [s \in {"api", "db", "web"} |-> IF s = "web" THEN {"two"} ELSE IF s = "db" THEN {"local", "none"} ELSE {"udp"}],
-     {1}, [c \in {"large", "small"} |-> IF c = "large" THEN "QLarge" ELSE "QSmall"]),
-  UnitsSlice >>
-
-
-\* the unit universe of this tier (built on use: see Sdl!QuantsOf)
-TierQuants(tag) == IF tag = "units" THEN QuantsVarying(CpusThorough,
-             UNION {MemForms, DecForms("G", 0..17), DecForms("M", 1..2000), DecForms("k", 1040..2040)},
-             UNION {StorageForms, DecForms("G", 0..1100), DecForms("M", 4..2000), DecForms("T", {0, 1})}) ELSE BaseQuants(tag)
+     {1}, [c \in {"large", "small"} |-> IF c = "large" THEN <<List(<<QLarge>>)>> ELSE <<List(<<QSmall>>)>>]),
+  \* every CPU amount with at most three decimals from 0.009 to 10.001, in both decimal spellings and as millis;
+  \* memory n.t G (n 0..17), n.t M (1..2000), n.t k (1040..2040); storage n.t G (0..1100), n.t M (4..2000), n.t T (0..1)
+  UnitsSlice("D", << CpuEdge, CpuFam("dec", 9, 10001), CpuFam("dec3", 9, 10001), CpuFam("m", 9, 10001),
+                     MemForms, MemFam("G", 0, 17), MemFam("M", 1, 2000), MemFam("k", 1040, 2040),
+                     StorageForms, StorageFam("G", 0, 1100), StorageFam("M", 4, 2000), StorageFam("T", 0, 1), AttrForms >>) >>
 
 ASSUME ExportDocs(Slices)
 =============================================================================
